@@ -139,7 +139,7 @@ def gen_cases(rng, tier):
     cases = []
     # 1. the sweep
     progs = []
-    reps = 6 if thorough else 2
+    reps = 6 if thorough else 4
     for cn in D.CLASS_NAMES:
         names = sorted(S.api_of(cn)) + ['<ctor>', '<pickle>', '<deepcopy>']
         for name in names:
@@ -162,7 +162,7 @@ def gen_cases(rng, tier):
             cases.append({'op': 'sweep', 'id': 'sweep-%d' % n, 'prog': prog, 'focus': focus,
                           'req': ['c05', 'wf', dumps], 'kind': 'sweep:%s.%s' % (cn, name), 'nontrivial': nontrivial})
     # 2. one-step correspondence of the modelled operations
-    nprog = 1500 if thorough else 250
+    nprog = 1500 if thorough else 600
     k = 0
     for n in range(nprog):
         prog, trace = P.gen_prim(rng, rng.choice([3, 5, 8, 12] if thorough else [3, 5, 8]), tab)
